@@ -219,11 +219,12 @@ func (e *Engine) staticCall(f *frame, st *State, fn *ssa.Function, args []Val, b
 		key := FuncKey(fn)
 		// method receivers may be nil: callee dereferences are its own obligation, but with a contract the
 		// caller must establish "receiver != nil" only if the contract requires it.
-		if ct := e.W.Contracts[key]; ct != nil && !(f.top && false) && e.useContract(fn) {
+		ct := e.W.Contracts[key]
+		if ct != nil && !ct.Inline {
 			return e.applyContract(f, st, ct, fn, fn.Signature, args, rt, pos, key)
 		}
-		if e.canInline(f, fn) {
-			rets, exit, _ := e.execFunc(fn, args, binds, st, f, nil)
+		if e.canInline(f, fn, ct) {
+			rets, exit, _ := e.execFunc(fn, args, binds, st, f, ct)
 			*st = *exit
 			return packResults(rt, rets)
 		}
@@ -294,7 +295,7 @@ func packResults(rt types.Type, rets []Val) Val {
 }
 
 // canInline: loop-free, non-recursive, small bodies are executed in place (their strongest postcondition).
-func (e *Engine) canInline(f *frame, fn *ssa.Function) bool {
+func (e *Engine) canInline(f *frame, fn *ssa.Function, ct *Contract) bool {
 	if fn.Blocks == nil || f.depth >= maxInlineDepth {
 		return false
 	}
@@ -307,11 +308,14 @@ func (e *Engine) canInline(f *frame, fn *ssa.Function) bool {
 		return false
 	}
 	info := e.W.fnInfo(fn)
-	return !info.hasLoop && !info.rejects && info.size <= 400
+	if info.rejects {
+		return false
+	}
+	if ct != nil && ct.Inline {
+		return true // loops are unrolled or cut by the contract's annotations
+	}
+	return !info.hasLoop && info.size <= 400
 }
-
-// useContract decides whether a callee's contract is used instead of inlining.
-func (e *Engine) useContract(fn *ssa.Function) bool { return true }
 
 // ---- builtins ----------------------------------------------------------------------------------
 
